@@ -60,6 +60,8 @@ def explore(mod_name, func_name, params, opts):
     mod = importlib.import_module(mod_name)
     fn = getattr(mod, func_name)
     t0 = time.time()
+    if opts.get('crosscheck'):
+        engine.CROSS.update({'on': True, 'left': int(opts['crosscheck'])})
     budget = opts.get('budget_s', 120)
     max_paths = opts.get('max_paths', 2000)
     validate = opts.get('validate', True)
@@ -217,6 +219,9 @@ def explore(mod_name, func_name, params, opts):
     st = {}
     engine.STATS.merge_into(st)
     res['solver'] = st
+    if engine.CROSS['on']:
+        res['crosscheck'] = {'agree': engine.CROSS['agree'], 'inconclusive': engine.CROSS['inconclusive'],
+                             'disagree': engine.CROSS['disagree'][:5], 'by': engine.CROSS['by']}
     npshim.uninstall()
     monitors.uninstall()
     engine.CTX = None
